@@ -86,6 +86,10 @@ func genBatchProjects(root string, seed uint64, nProj int, tagProp string) ([]*S
 		}
 		sc.Project = fmt.Sprintf("p%02d", i)
 		sc.Weather.Folder = fmt.Sprintf("wx%02d", i)
+		if i == 4 && nProj > 4 {
+			// a project (and weather folder) whose name differs from another project's only in letter case: different files
+			sc.Project, sc.Weather.Folder = "P02", "WX02"
+		}
 		if i == 1 && sc.ReducedTablesWithout == "" && len(sc.AliasCrops) == 0 {
 			// one project whose soil uses a texture class of its own: only its own parameter folder lists it (rows copied from
 			// the class the generator had drawn), every other line of the session runs with tables that do not know it
